@@ -49,8 +49,11 @@ fn build(c: &Case) -> (FnGraph<Acc>, Vec<FnId>) {
     let mut b = FnGraphBuilder::new();
     let ids: Vec<FnId> = c.accs.iter().cloned().map(|a| b.add_fn(a)).collect();
     for &(x, y) in &c.edges { b.add_logic_edge(ids[x], ids[y]).unwrap(); }
-    (b.build(), ids)
+    let g = b.build();
+    // every other graph is a `clone()` of the built one (the original is dropped): a copy must run like the original
+    if BUILDS.fetch_add(1, std::sync::atomic::Ordering::Relaxed) % 2 == 1 { (g.clone(), ids) } else { (g, ids) }
 }
+static BUILDS: std::sync::atomic::AtomicUsize = std::sync::atomic::AtomicUsize::new(0);
 
 fn check_trace(which: &str, c: &Case, g: &FnGraph<Acc>, ids: &[FnId], trace: &[Ev], reverse: bool, clean: bool, failed: &[usize], api: &str) -> Result<(), String> {
     let n = c.n;
@@ -123,7 +126,38 @@ fn guarded(which: &str, label: String, f: impl FnOnce() -> Result<(), String> + 
     }
 }
 
+/// one very large graph (more than 4096 functions: the ids no longer fit in 12 bits): 4100 independent functions and a chain of
+/// 100 behind function 0; `try_for_each_concurrent` with function 0 failing - every independent function is dequeued, no
+/// function of the chain is - and a clean `for_each_concurrent`. Judged: the errors (C07) and the outcome lists (C09)
+fn run_big_case(which: &'static str, c: Case) -> Result<(), String> {
+    if !(which == "C07" || which == "C09" || which == "C03" || which == "all") { return Ok(()); }
+    let n = c.n;
+    let cc = Case { n: c.n, accs: c.accs.clone(), edges: c.edges.clone(), desc: c.desc.clone() };
+    guarded(which, format!("try_for_each_concurrent (function 0 fails) on {}", c.desc), move || {
+        let (g, _ids) = build(&cc);
+        let started = Rc::new(RefCell::new(Vec::<usize>::new()));
+        let st = started.clone();
+        let res = block_on(g.try_for_each_concurrent(None, move |f: &Acc| { let (st, id) = (st.clone(), f.id); async move { st.borrow_mut().push(id); if id == 0 { Err(id) } else { Ok(()) } } }));
+        let started = started.borrow().clone();
+        let (outcome, errs) = match res { Ok(o) => (o, vec![]), Err((o, e)) => (o, e) };
+        if (which == "C07" || which == "all") && errs != vec![0] { return Err(format!("C07: errors {errs:?} but exactly function 0 failed ({})", cc.desc)); }
+        if which == "C09" || which == "C03" || which == "all" {
+            let proc_: Vec<usize> = outcome.fn_ids_processed.iter().map(|i| i.index()).collect();
+            if proc_ != started { return Err(format!("C09: fn_ids_processed has {} ids but {} functions were started ({})", proc_.len(), started.len(), cc.desc)); }
+            let mut is_proc = vec![false; n];
+            for &i in &proc_ { is_proc[i] = true; }
+            let want: Vec<usize> = (0..n).filter(|&i| !is_proc[i]).collect();
+            let got: Vec<usize> = outcome.fn_ids_not_processed.iter().map(|i| i.index()).collect();
+            if got != want { return Err(format!("C09: {} functions were processed, fn_ids_not_processed lists {} ids {:?}.. but the functions never handed out are the {} ids {:?}.. ({})", proc_.len(), got.len(), &got[..got.len().min(5)], want.len(), &want[..want.len().min(5)], cc.desc)); }
+            if (outcome.state == StreamOutcomeState::Finished) != want.is_empty() { return Err(format!("C09: state {:?} with {} functions not processed ({})", outcome.state, want.len(), cc.desc)); }
+        }
+        Ok(())
+    })??;
+    Ok(())
+}
+
 fn run_case(which: &'static str, c: Case, seed: u64) -> Result<(), String> {
+    if c.n > 1000 { return run_big_case(which, c); }
     let stream_only = which == "C05";
     for reverse in [false, true] {
         for limit in [None, Some(1usize), Some(2)] {
@@ -223,6 +257,42 @@ fn run_case(which: &'static str, c: Case, seed: u64) -> Result<(), String> {
             for r in held.drain(..) { tr.push(Ev::End(r.id)); }
             check_trace(which, &cc, &g, &ids, &tr, reverse, true, &[], "stream_with")
         })??;
+    }
+    // ---- stream consumed by an async loop INSIDE the executor (on a tokio runtime every tokio primitive the consumer and the
+    // stream touch draws on one cooperative budget, so `Pending` can come back with items queued): take, do k tokio
+    // operations, drop, poll again; every function must be handed out exactly once and the stream must end
+    if which == "C03" || which == "C05" || which == "C04" || which == "all" {
+        for k in 0..8usize {
+            if c.n <= 50 && k > 4 { continue; }
+            for reverse in [false, true] {
+                if c.n > 50 && reverse { continue; }
+                let cc = Case { n: c.n, accs: c.accs.clone(), edges: c.edges.clone(), desc: c.desc.clone() };
+                let label = format!("stream_with(reverse={reverse}) consumed by an async loop doing {k} channel receives per item on {}", c.desc);
+                guarded(which, label.clone(), move || {
+                    let (g, _ids) = build(&cc);
+                    let opts = if reverse { StreamOpts::new().rev() } else { StreamOpts::new() };
+                    let handed: Vec<usize> = block_on(async {
+                        // k budgeted tokio operations per item: receives from a channel that already holds enough values
+                        let (tx, mut rx) = tokio::sync::mpsc::unbounded_channel::<usize>();
+                        for i in 0..cc.n * k + 1 { let _ = tx.send(i); }
+                        let mut out = vec![];
+                        let mut s = std::pin::pin!(g.stream_with(opts));
+                        while let Some(r) = s.next().await {
+                            out.push(r.id);
+                            for _ in 0..k { let _ = rx.recv().await; }
+                            drop(r);
+                        }
+                        out
+                    });
+                    let mut seen = vec![0usize; cc.n];
+                    for &i in &handed { seen[i] += 1; }
+                    if let Some(i) = (0..cc.n).find(|&i| seen[i] != 1) {
+                        return Err(format!("C03: {label}: the stream ended after {} of {} functions; function {i} was handed out {} times", handed.len(), cc.n, seen[i]));
+                    }
+                    Ok(())
+                })??;
+            }
+        }
     }
     // ---- entry-point sweep: a clean run through EVERY public fold / for_each entry point (the pass-through wrappers are under
     // no contract): order, exactly-once and the outcome are judged per entry point; small graphs only
@@ -415,6 +485,8 @@ fn main() {
         let n = 202; let mut edges = vec![]; for i in 1..201 { edges.push((0, i)); edges.push((i, 201)); }
         cases.push(Case { n, accs: (0..n).map(|i| Acc { id: i, reads: vec![], writes: vec![] }).collect(), edges, desc: "root -> 200 children -> sink".into() });
     }
+    cases.push(Case { n: 300, accs: (0..300).map(|i| Acc { id: i, reads: vec![], writes: vec![] }).collect(), edges: (0..299).map(|i| (i, i + 1)).collect(), desc: "chain of 300".into() });
+    cases.push(Case { n: 4200, accs: (0..4200).map(|i| Acc { id: i, reads: vec![], writes: vec![] }).collect(), edges: std::iter::once((0usize, 4100usize)).chain((4100..4199).map(|i| (i, i + 1))).collect(), desc: "4100 independent functions + a chain of 100 behind function 0".into() });
     // large fan-in / fan-out
     cases.push(Case { n: 301, accs: (0..301).map(|i| Acc { id: i, reads: vec![], writes: vec![] }).collect(), edges: (0..300).map(|i| (i, 300)).collect(), desc: "fan-in: 300 functions -> 1 sink".into() });
     cases.push(Case { n: 301, accs: (0..301).map(|i| Acc { id: i, reads: vec![], writes: vec![] }).collect(), edges: (1..301).map(|i| (0, i)).collect(), desc: "fan-out: 1 root -> 300 functions".into() });
